@@ -123,6 +123,9 @@ func c18CoqBytes(b []byte) string {
 // step runs one wire command in the Coq server model: RESP3 reply bytes + PUBLISHed messages.
 func (c *c18Coq) step(cmd [][]byte) ([]byte, [][2][]byte, error) {
 	c.n++
+	if os.Getenv("VERIF_DEBUG_WIRE") != "" {
+		fmt.Fprintf(os.Stderr, "wire %d: %q\n", c.n, cmd)
+	}
 	parts := make([]string, len(cmd))
 	for i, a := range cmd {
 		parts[i] = c18CoqBytes(a)
